@@ -22,7 +22,7 @@ def run(rep, tier, seed):
     n = size(tier, 100, 2000)
     for name, quant, par in (("fol-qf", False, True), ("quant", True, True), ("qparent", True, 1.0)):
         # qparent: partially quantified formulae used as sub-formulae (S(x) -> Forall(y, ..), Not(Exists(y, ..)), ...)
-        progs = [streams.gen_fol_program(seed + 5, k, quant=quant, crossed_p=0.1, mid_facts=0.15, parents=par)
+        progs = [streams.gen_fol_program(seed + 5, k, quant=quant, crossed_p=0.1, mid_facts=0.15, parents=par, restrict_p=0.25)
                  for k in range(n if par is True else n // 2)]
         if name == "qparent":
             progs = streams.corpus_fol("C05") + progs          # minimised past failures run first
